@@ -172,8 +172,7 @@ def model_lines(sc, impl_log=None, ops=None):
     for c in sc.get('setexec', []):
         L.append(f'setexec {c} 1')
     L.append(f"timeoutticks {sc.get('timeoutticks', 8)}")
-    if 'fuel' in sc:
-        L.append(f"fuel {sc['fuel']}")
+    L.append(f"fuel {sc.get('fuel', 1500)}")
     for e in (impl_log or []):
         L.append('tape ' + e)
     first = len(L)
